@@ -226,6 +226,14 @@ impl LogWriter for RecWriter {
         Ok(())
     }
     fn max_log_level(&self) -> LevelFilter {
+        // foreign code called from WritersHandle::reconfigure: in race scenarios (handler noise on) it takes a
+        // seeded random time, which widens the window between the specification update and the gate update
+        let seed = h().noise.load(Ordering::Relaxed);
+        if seed != 0 {
+            let x = h().noise.fetch_add(0x9E37_79B9_7F4A_7C15, Ordering::Relaxed);
+            let z = (x ^ (x >> 29)).wrapping_mul(0xBF58_476D_1CE4_E5B9);
+            std::thread::sleep(Duration::from_micros((z >> 40) % 300));
+        }
         self.max
     }
 }
@@ -758,6 +766,7 @@ fn run_text(sc: &Value, out: &mut Out, root: &Path) {
 }
 
 // ------------------------------------------------------------------ kind "conc": C12
+static RACE_HOLD: AtomicBool = AtomicBool::new(false);
 #[derive(Debug, PartialEq)]
 enum Where {
     Parked(String),
@@ -862,6 +871,10 @@ fn run_conc(sc: &Value, out: &mut Out) {
         joins.push(std::thread::spawn(move || {
             crate::handler::set_tid(&id);
             let _ = flexi_logger::verif_hooks::point("sc:start", None);
+            // free-running races: all threads leave this spin barrier within nanoseconds of each other
+            while RACE_HOLD.load(Ordering::Acquire) {
+                std::hint::spin_loop();
+            }
             let r = catch_unwind(AssertUnwindSafe(|| {
                 let empty = Vec::new();
                 for call in prog.as_array().unwrap_or(&empty) {
@@ -960,13 +973,23 @@ fn run_conc(sc: &Value, out: &mut Out) {
         out.emit(ev);
     }
     // let everything that is still on its way finish, then observe
+    let free_run = sc["steps"].as_array().map(|a| a.iter().all(|s| s.get("t").is_none())).unwrap_or(true);
+    if free_run {
+        h().noise.store(sc["sc"].as_u64().unwrap_or(1) * 2654435761 + 1, Ordering::SeqCst);
+        RACE_HOLD.store(true, Ordering::Release);
+    }
     h().sched_off();
+    if free_run {
+        std::thread::sleep(Duration::from_micros(300)); // everybody has left the controller and spins
+        RACE_HOLD.store(false, Ordering::Release);
+    }
     let mut clones = Vec::new();
     for j in joins {
         if let Ok(hd) = j.join() {
             clones.push(hd);
         }
     }
+    h().noise.store(0, Ordering::SeqCst);
     let ps = panics.lock().unwrap().clone();
     let mut ev = json!({"ev": "End", "sched": if diverged {"diverged"} else {"replayed"}});
     ev["ret"] = json!(if ps.is_empty() {
